@@ -77,6 +77,8 @@ const epochKey = "\x00epoch"
 func (E *Engine) havocAll(st *State, why string) {
 	E.note("havoc of the whole heap: %s", why)
 	held := E.heldProtected(st)
+	pcells := E.privKeep(st)
+	defer func() { E.privRestore(st, pcells) }()
 	type keepCell struct{ comp, ref, val, sort string }
 	var cells []keepCell
 	for _, h := range held {
@@ -191,6 +193,9 @@ func (E *Engine) doCall(st *State, in ssa.Instruction, cc *ssa.CallCommon, res s
 		for _, a := range cc.Args {
 			args = append(args, E.val(st, a))
 		}
+		for _, a := range args {
+			E.escapeVal(st, a)
+		}
 		key := E.ifaceKey(cc)
 		spec := E.CS.Funcs[key]
 		if spec == nil {
@@ -215,6 +220,13 @@ func (E *Engine) doCall(st *State, in ssa.Instruction, cc *ssa.CallCommon, res s
 	}
 	for _, a := range cc.Args {
 		args = append(args, E.val(st, a))
+	}
+	if fnv.Fn == nil || !strings.HasPrefix(fnv.Fn.Key, "builtin:") {
+		// whatever is handed to a callee may be kept or modified by it
+		for _, a := range args {
+			E.escapeVal(st, a)
+		}
+		E.escapeVal(st, fnv)
 	}
 	if fnv.Fn == nil {
 		// unknown function value (parameter, field …)
@@ -999,6 +1011,10 @@ func (E *Engine) doAppend(st *State, in ssa.Instruction, args []*Val, res ssa.Va
 	if c, ok := isConstTerm(n); ok && c.IsInt64() && c.Int64() == 1 {
 		one = true
 	}
+	if one && !tIsStr && E.CS.NonNilIfaces[namedKey(et)] {
+		ev := E.load(st, st.heap, &LVal{Kind: lvElem, Ref: t.F[0].S, Idx: E.at(t.F[1].S, "0"), Root: et})
+		E.checkNonNilStored(st, in, ev)
+	}
 	// source element reader
 	srcAt := func(h map[string]string, l leafInfo, j string) string {
 		if tIsStr {
@@ -1042,6 +1058,7 @@ func (E *Engine) doAppend(st *State, in ssa.Instruction, args []*Val, res ssa.Va
 		b.assume(not(fits))
 		pre := copyHeap(b.heap)
 		nref := E.newObject(b, "append")
+		E.privNew(b, nref, elemsRoot(et)+"!")
 		ncap := E.freshConst("ncap", SInt)
 		b.assume(sx("<=", newLen, ncap), sx("<=", ncap, maxLen))
 		for _, l := range ls {
